@@ -14,10 +14,37 @@ use serde_json::{json, Value};
 
 pub const RULE: &str = "game histories with controlled multiplicities: from startpos or a generated valid FEN, a random prefix, then shuffle cycles (both sides move a man out and back, 0..3 full cycles, knight/king/rook/bishop/queen shuffles, with and without lost castling rights, vanished ep squares or an intervening irreversible move) and a partial cycle, so that the candidate successors of the final position P have 0, 1, 2 or >=3 earlier occurrences; 1..2 position commands on a fresh engine (only the last one's history may count; in a fifth of the cases the game is given first and then its final position again as a bare 'position fen …' / 'position startpos' without moves, whose history is that single position). Oracle (value level, through the real command path): 'position ...' then 'go depth 1'; the score of the completed depth-1 iteration must equal max over legal m of ( n(m) >= 2 ? 0 : -Q(P·m) ), Q = reference quiescence value, n(m) = occurrences of P·m in the most recent command's history. Successors whose count differs between the rule-book identity (ep only if capturable) and the exact-field identity are not judged. Non-trivial = the case discriminates (value with the draw rule != value without it, or a successor seen exactly once keeps its real non-zero value while deciding the maximum) ; distinct by command text.";
 
-fn reversible(p: &Pos, m: &Mv) -> bool {
+pub fn reversible(p: &Pos, m: &Mv) -> bool {
     let i = p.info(*m);
     let k = p.sq[m.from as usize].unwrap().1;
     !i.capture && !i.castle && !i.promo && k != Kind::P
+}
+
+/// One out-and-back cycle (a, b, a', b') of reversible moves from `x`, if there is one: the
+/// placement, side to move and castling rights come back, an en-passant right does not.
+pub fn one_cycle(s: &mut Src, x: &Pos) -> Option<[Mv; 4]> {
+    let la: Vec<Mv> = x.legal_moves().into_iter().filter(|m| reversible(x, m)).collect();
+    if la.is_empty() {
+        return None;
+    }
+    let a = la[s.below(la.len())];
+    let x1 = x.make(a);
+    let lb: Vec<Mv> = x1.legal_moves().into_iter().filter(|m| reversible(&x1, m) && m.to != a.from).collect();
+    if lb.is_empty() {
+        return None;
+    }
+    let b = lb[s.below(lb.len())];
+    let x2 = x1.make(b);
+    let ar = Mv { from: a.to, to: a.from, promo: None };
+    if !x2.legal_moves().contains(&ar) {
+        return None;
+    }
+    let x3 = x2.make(ar);
+    let br = Mv { from: b.to, to: b.from, promo: None };
+    if !x3.legal_moves().contains(&br) {
+        return None;
+    }
+    Some([a, b, ar, br])
 }
 
 /// Builds the move list: prefix + cycles*(a,b,a',b') + (a,b,a').  Returns moves and the would-be
